@@ -76,6 +76,11 @@ CHECKS = {
             "Every transform class that supports strength scaling (found by introspection, 2-3 constructor settings each) and compositions: all factor sequences of length <=3 (quick, 4 factors) / <=4 (thorough, 5 factors) are applied to real objects; the numeric parameter vector after a path ending in f must equal fresh.scale(f), f=1 must restore the constructed ranges exactly, f=0 must be the weakest setting, every bound must move monotonically and og_* values must never change; sampled parameters at the range ends (ChoiceRng) tie the state to behaviour. Scheduled transform: 1..4 simulated round-robin workers x batch sizes 1..3 x 1..8 batches x three budget kinds; strength in ctx and applied to every sample of global batch b must equal the schedule's value at b.",
             "Trusted: the weakest-setting table and parameter-vector extraction in kdverif/props/c15.py; partial final batches are outside the stated domain.",
             "DESIGN.md section 5 C15"),
+    "C16": ("E1-choice", "exploration",
+            "exhaustive enumeration of label layouts x the parameter grid of every label-rewriting wrapper, checked against relational oracles on the real wrappers",
+            "All label layouts of length 1..4 (quick) / 1..5 (thorough) over 2..4 declared classes x the full small parameter grid of the ten label-rewriting wrappers (group sizes dividing the class count, split counts, swap probabilities, hard/soft/thresholded/top-k pseudo labels with seeds and temperatures, world sizes, random-class modes, semi percentages, smoothing values): bulk (library getall) vs per-sample labels, label range vs getshape_class, wrapped data and wrapped label list untouched, reproducibility under a different global RNG state, encodings non-negative/sum one/original class maximal, and a bulk-consuming wrapper on top.",
+            "Trusted: harness base dataset that hands out its internal label list; two known findings (vector-label wrappers without bulk accessor) are listed in known_findings.json.",
+            "DESIGN.md section 5 C16"),
 }
 
 NOT_APPLICABLE = {
